@@ -1499,7 +1499,11 @@ def base_classes(body_a, body_b=(), flags_a=0x1, hooks=()):
     return {
         "LA;": dict(super="LS;", flags=flags_a, methods=[("m", PROTO_V, [(op, ref) for op, ref, _ in body_a]), ("m2", PROTO_V, []), ("abstract_m", PROTO_V, None)],
                     fields=[("y", "I"), ("y", "J")], string_hooks=list(hooks)),
-        "LB;": dict(methods=[("foo", ["(I)", "V"], [(op, ref) for op, ref, _ in body_b]), ("renamed", PROTO_V, [])], fields=[("x", "I"), ("x", "J")]),
+        "LB;": dict(methods=[("foo", ["(I)", "V"], [(op, ref) for op, ref, _ in body_b]), ("renamed", PROTO_V, []),
+                             # two accessors with identical code: the same field is read / written at the same offsets by different methods
+                             ("getter_a", ["()", "I"], [(0x60, ("field", "LB;", "I", "x")), (0x67, ("field", "LB;", "I", "x")), (0x1A, ("string", "twin"))]),
+                             ("getter_b", ["()", "I"], [(0x60, ("field", "LB;", "I", "x")), (0x67, ("field", "LB;", "I", "x")), (0x1A, ("string", "twin"))])],
+                    fields=[("x", "I"), ("x", "J")]),
         # a class that declares fields but no methods (constant holder)
         "LD;": dict(methods=[], fields=[("v", "I")]),
     }
@@ -1513,7 +1517,8 @@ def scenario_bodies():
         b += [(k, ("method", "LB;", "foo", ["(I)", "V"]), "internal target"), (k, ("method", "LA;", "m2", PROTO_V), "call into the own class"),
               (k, ("method", EXT, "bar", PROTO_V), "external target"), (k, ("method", "LB;", "inherited", PROTO_V), "method not defined in the internal class"),
               (k, ("method", "LB;", "foo", ["(I)", "V"]), "second call of the internal target"),
-              (k, ("method", "LB;", "foo", ["(J)", "V"]), "overload the internal class does not define")]
+              (k, ("method", "LB;", "foo", ["(J)", "V"]), "overload the internal class does not define"),
+              (k, ("method", "LA;", "m", PROTO_V), "recursive call of the method itself")]
     S["F2 invoke variants"] = b
     S["F2a invoke on array classes"] = [x for k in INVOKES for x in ((k, ("method", "[LB;", "clone", ["()", "Ljava/lang/Object;"]), "object-array receiver"),
                                                                        (k, ("method", "[I", "clone", ["()", "Ljava/lang/Object;"]), "primitive-array receiver"),
@@ -1666,6 +1671,8 @@ def report_scenario(sink, res, props, func, prop):
                    "scenario %s: Analysis.add / create_xref raise %s on the model (%s)" % (name, r.exc, (r.detail or "")[:120]), node=r.node)
         return 1
     tags = _off_tags(res.body, res.dexes)
+    # the other methods of the model that contain instructions (their records are not tagged with LA;->m's instructions)
+    others = {"M:" + m.label for d in res.dexes for c in d.classes for m in c.methods if m.ins and not (c.name == "LA;" and m.name == "m")}
     diffs = res.got.diff(res.exp)
     grouped = {}
     n = 0
@@ -1688,8 +1695,10 @@ def report_scenario(sink, res, props, func, prop):
             continue
         ops_here = set()
         t2 = []
+        # offsets are tagged with the instruction of LA;->m they belong to -- only for records made by that method
+        mine_m = not any(o in tup or key[0] == o for o in others)
         for x in tup:
-            if isinstance(x, str) and x in tags:
+            if isinstance(x, str) and x in tags and mine_m:
                 op, tag = tags[x]
                 ops_here.add(op)
                 t2.append("@" + (tag or "the instruction"))
